@@ -24,12 +24,13 @@ UNK = _Unk()
 
 
 class Adt:
-    __slots__ = ("adt", "variant", "fields")
+    __slots__ = ("adt", "variant", "fields", "vname")
 
-    def __init__(self, adt, variant, fields):
+    def __init__(self, adt, variant, fields, vname=None):
         self.adt = adt
         self.variant = variant
         self.fields = list(fields)
+        self.vname = vname
 
     def __repr__(self):
         return "%s#%s%r" % (self.adt, self.variant, self.fields)
@@ -464,13 +465,16 @@ class Sim:
                 return wrap(a, rv["to"]) if isinstance(a, int) else UNK
             if ck.startswith("PointerCoercion") or ck.startswith("PtrToPtr") or ck.startswith("Transmute"):
                 if ck.startswith("Transmute") and rv["from"] != rv["to"]:
+                    # Box deref lowering: NonNull<T> -> *const T keeps the pointer
+                    if rv["from"].startswith("std::ptr::NonNull<") and rv["to"].startswith("*"):
+                        return a
                     return UNK
                 return a
             return UNK
         if k == "agg":
             fs = [self.operand(env, f, path) for f in rv["fields"]]
             if "adt" in rv:
-                return Adt(rv["adt"], rv["variant"], fs)
+                return Adt(rv["adt"], rv["variant"], fs, rv.get("vname"))
             if rv.get("agg") == "array":
                 if all(isinstance(x, int) for x in fs):
                     return Bytes(fs)
@@ -663,7 +667,7 @@ class Sim:
 
     def _copy_val(self, v, memo):
         if isinstance(v, Adt):
-            return Adt(v.adt, v.variant, [self._copy_val(x, memo) for x in v.fields])
+            return Adt(v.adt, v.variant, [self._copy_val(x, memo) for x in v.fields], v.vname)
         if isinstance(v, Tup):
             return Tup([self._copy_val(x, memo) for x in v.fields])
         if isinstance(v, Part):
